@@ -21,7 +21,7 @@ Inductive case :=
 | CComb (keys : list key) (out : list (list key))               (* all_combinations(dict with these keys) *)
 | CExh (keys : list key) (out : list (nat * list key)) (unordered : bool)
     (* exhaustive: run number, combo; does a candidate with several features receive its functions as an unordered set? *)
-| CTeq (t1 t2 : pstmt) (is_pair c1 c2 truth : bool)              (* Transits.__eq__ *)
+| CTeq (t1 t2 : pstmt) (is_bool truth : bool)                    (* Transits.__eq__: is the result a bool, its truth value *)
 | CLnt (a b : mf) (o : obs (list key))                          (* a.least_number_of_transformations(b, tool='modelsearch').keys() *)
 | CAllowed (keys : list key) (qs : list (key * list key * bool)) (* _is_allowed(cur, ., prev, funcs) *)
 | CStep (keys : list key) (out : list (nat * list key))         (* exhaustive_stepwise: run number, feature path from the root, in model_tasks order *)
@@ -117,7 +117,7 @@ Definition check_comb (keys : list key) (out : list (list key)) : list nat :=
 
 Definition check_exh (keys : list key) (out : list (nat * list key)) (unordered : bool) : list nat :=
   (* the functions must reach create_candidate_exhaustive aligned with the feature keys they are zipped with *)
-  tag (negb unordered) 42 ++ tag (all_same_cat kcat atom_eqb keys) 204 ++
+  tag (negb unordered) 42 ++
   tag (list_eqb (fun a b => Nat.eqb (fst a) (fst b) && list_eqb key_eqb (snd a) (snd b))
                 (exhaustive kcat atom_eqb keys) out) 4 ++
   tag (nodupb Nat.eqb (map fst out)) 41 ++
@@ -162,7 +162,7 @@ Definition check_step (keys : list key) (out : list (nat * list key)) : list nat
   tag (forallb (periph_order_ok keys) paths) 52 ++
   tag (closure_ok keys paths && o_list_nodup key_cmp paths) 53 ++
   tag (list_eqb Nat.eqb (map fst out) (seq 1 (length out))) 54 ++
-  tag (g_periph keys) 201 ++ tag (increasingb (n_all keys)) 203.
+  [].
 
 Fixpoint list_rel {X Y} (r : X -> Y -> bool) (a : list X) (b : list Y) : bool :=
   match a, b with
@@ -187,7 +187,7 @@ Definition merged_ok (out : list (nat * pref * list key * key)) (colls : list (l
      negb (is_parent (fst (fst (fst x))) out colls && is_parent (fst (fst (fst y))) out colls)) out) out.
 
 Definition check_red (keys : list key) (out : list (nat * pref * list key * key)) (colls : list (list pref)) : list nat :=
-  let '(created, mcolls, ok, single) := reduced_stepwise tbl keys in
+  let '(created, mcolls, ok) := reduced_stepwise tbl keys in
   tag (list_rel (fun a b => let '(n, pr, ps, f) := b in
                    Nat.eqb (fst a) n && pref_eqb (fst (fst (snd a))) pr && same_set (snd (fst (snd a))) ps && key_eqb (snd (snd a)) f)
                 (combine (seq 1 (length created)) created) out
@@ -201,8 +201,7 @@ Definition check_red (keys : list key) (out : list (nat * pref * list key * key)
        forallb (fun x => forallb (fun f => negb (doc_allowed tbl keys f (snd (fst x))) ||
                     existsb (fun y => pref_eqb (snd (fst (fst y))) (snd (fst (fst x))) && key_eqb (snd y) f) out) keys) out) 53 ++
   tag (list_eqb Nat.eqb (map (fun x => fst (fst (fst x))) out) (seq 1 (length out))) 54 ++
-  tag (merged_ok out colls) 55 ++
-  tag (g_periph keys) 201 ++ tag (negb single) 202 ++ tag (increasingb (n_all keys)) 203.
+  tag (merged_ok out colls) 55.
 
 (* ---- iivsearch brute force ---- *)
 Definition check_iivblock (names : list str) (base : list (list str)) (offset : nat) (out : list (nat * list (list str))) : list nat :=
@@ -229,7 +228,7 @@ Definition verdict (c : case) : list nat :=
   | CSubZ l mn mx out => check_sub l mn mx out
   | CComb keys out => check_comb keys out
   | CExh keys out u => check_exh keys out u
-  | CTeq t1 t2 p c1 c2 tr => teq_verdict t1 t2 p c1 c2 tr
+  | CTeq t1 t2 p tr => teq_verdict t1 t2 p tr
   | CLnt a b o => lnt_verdict a b o
   | CAllowed keys qs => check_allowed keys qs
   | CStep keys out => check_step keys out
